@@ -101,7 +101,10 @@ public:
             {
                 // Save v <- f / ||f|| to the (i+1)-th column of V
                 v.noalias() = m_fac_f / m_beta;
-                if (m_beta < eps_sqrt)
+                // "Small" is relative to the size of A * V{i}, which was split into
+                // H[i-1, i] * V{i-1} + H[i, i] * V{i} + f
+                const RealScalar wscale = abs(m_fac_H(i - 1, i - 1)) + ((i > 1) ? abs(m_fac_H(i - 1, i - 2)) : RealScalar(0));
+                if (m_beta < eps_sqrt * wscale)
                 {
                     // Test (Vi^H)v
                     const Scalar Viv = m_op.inner_product(m_fac_V.col(i - 1), v);
@@ -157,7 +160,9 @@ public:
                 // likely to fail. In particular, if beta=0, then the test is ensured to fail.
                 // Hence when this happens, we force f to be zero, and then restart in the
                 // next iteration.
-                if (m_beta < beta_thresh)
+                // beta is compared with the size of A * v, which is the size of the
+                // two coefficients H[i+1, i] and H[i+1, i+1] when f is this small
+                if (m_beta < beta_thresh * (abs(m_fac_H(i, i - 1)) + abs(m_fac_H(i, i))))
                 {
                     m_fac_f.setZero();
                     m_beta = RealScalar(0);
